@@ -49,6 +49,9 @@ func (m *Matrix[S]) UnmarshalCBOR(data []byte) error {
 	if err != nil {
 		return errs.Wrap(err).WithMessage("failed to unmarshal matrix")
 	}
+	if dto == nil {
+		return errs.Wrap(serde.ErrNull).WithMessage("failed to unmarshal matrix")
+	}
 	if dto.Rows <= 0 || dto.Cols <= 0 {
 		return ErrDimension.WithMessage("matrix dimensions must be positive: got %dx%d", dto.Rows, dto.Cols)
 	}
@@ -94,6 +97,9 @@ func (m *ModuleValuedMatrix[E, S]) UnmarshalCBOR(data []byte) error {
 	dto, err := serde.UnmarshalCBOR[*moduleValuedMatrixDTO[E, S]](data)
 	if err != nil {
 		return errs.Wrap(err).WithMessage("failed to unmarshal module-valued matrix")
+	}
+	if dto == nil {
+		return errs.Wrap(serde.ErrNull).WithMessage("failed to unmarshal module-valued matrix")
 	}
 	if len(dto.Data) == 0 {
 		return ErrFailed.WithMessage("empty data")
@@ -141,6 +147,9 @@ func (m *SquareMatrix[S]) UnmarshalCBOR(data []byte) error {
 	dto, err := serde.UnmarshalCBOR[*squareMatrixDTO[S]](data)
 	if err != nil {
 		return errs.Wrap(err).WithMessage("failed to unmarshal square matrix")
+	}
+	if dto == nil {
+		return errs.Wrap(serde.ErrNull).WithMessage("failed to unmarshal square matrix")
 	}
 	if len(dto.Data) == 0 {
 		return ErrFailed.WithMessage("empty data")
